@@ -463,9 +463,36 @@ def c46_project_record(reprs, blocks):
 # --------------------------------------------------------------------------------------
 
 
+def _account(chk, module, cfg, label, r, expect_violation=None):
+    """Book a finished TLC run exactly as ``Check.tlc`` does (called from the main thread only;
+    the runs themselves are started with ``harness.core.run_tlc`` from worker threads)."""
+    rec = {
+        "module": module,
+        "cfg": str(cfg),
+        "label": label or "",
+        "generated": r.generated,
+        "distinct": r.distinct,
+        "depth": r.depth,
+        "wall_s": round(r.wall, 2),
+        "outcome": "violated:" + r.violated[1] if r.violated else ("ok" if r.completed else f"error:{r.error}"),
+    }
+    chk.cov["tlc_runs"].append(rec)
+    if r.error and not r.violated:
+        raise MachineryError(f"TLC failed on {module}/{cfg}: {r.error}\n{r.out[-3000:]}")
+    if expect_violation is not None:
+        if not r.violated or (expect_violation is not True and r.violated[1] != expect_violation):
+            raise MachineryError(
+                f"vacuity guard: {module}/{cfg} should violate {expect_violation}, got {rec['outcome']}"
+            )
+    else:
+        chk.cov["states"] += r.distinct
+        chk.cov["transitions"] += r.generated
+    return r
+
+
 class Design:
-    """B1 runs of FlavorsMC started in background threads (they need no trace file), so that
-    the exhaustive design exploration overlaps with the probing of the implementation."""
+    """B1 runs of FlavorsMC started in background threads, so that the exhaustive design
+    exploration overlaps with the probing of the implementation; booked at ``join``."""
 
     def __init__(self, chk):
         from concurrent.futures import ThreadPoolExecutor
@@ -475,28 +502,47 @@ class Design:
         self.futs = []
 
     def run(self, cfg, label, expect_violation=None, workers=8):
-        self.futs.append(
-            (cfg, self.pool.submit(self.chk.tlc, "FlavorsMC", cfg, label=label, workers=workers,
-                                   expect_violation=expect_violation))
-        )
+        from harness.core import run_tlc
+
+        fut = self.pool.submit(run_tlc, "FlavorsMC", cfg, workers=workers)
+        self.futs.append((cfg, label, expect_violation, fut))
 
     def join(self):
-        """Results in submission order; the intended design (no expected violation) must hold."""
+        """Results in submission order (vacuity guards enforced)."""
         out = []
         try:
-            for cfg, f in self.futs:
-                out.append(f.result())
+            for cfg, label, expect, f in self.futs:
+                out.append(_account(self.chk, "FlavorsMC", cfg, label, f.result(), expect))
         finally:
             self.pool.shutdown(wait=True)
         return out
 
 
-def validate(chk, recs, label, batch=400):
-    """Run FlavorsTrace over the records; returns [(record, verdict)] for every non-ok verdict."""
+def validate(chk, recs, label, batch=120, threads=6):
+    """Run FlavorsTrace over the records (batches in parallel TLC processes, one worker each:
+    a trace is a single chain of states); returns [(record, verdict)] for every non-ok verdict."""
+    import json
+    import uuid
+    from concurrent.futures import ThreadPoolExecutor
+
+    from harness.core import run_tlc, tla_json
+
+    nparts = max(1, -(-len(recs) // batch))
+    parts = [recs[k::nparts] for k in range(nparts)]  # strided: cheap and costly records mixed
+    files = []
+    for part in parts:
+        tf = chk.scratch / f"flavors-trace-{uuid.uuid4().hex}.json"
+        tf.write_text(json.dumps(tla_json(part)))
+        files.append(tf)
+    with ThreadPoolExecutor(max_workers=threads) as pool:
+        futs = [
+            pool.submit(run_tlc, "FlavorsTrace", "FlavorsTrace.cfg", workers=1, env={"TRACE_FILE": str(tf)})
+            for tf in files
+        ]
+        results = [f.result() for f in futs]
     bad = []
-    for k in range(0, len(recs), batch):
-        part = recs[k : k + batch]
-        r = chk.tlc("FlavorsTrace", "FlavorsTrace.cfg", trace=part, workers=1, label=label)
+    for part, r in zip(parts, results):
+        _account(chk, "FlavorsTrace", "FlavorsTrace.cfg", f"{label} ({len(part)} records)", r)
         if r.violated or not r.completed:
             raise MachineryError(f"FlavorsTrace not accepted ({label}): {r.out[-2500:]}")
         for t in r.printed("BAD"):
